@@ -15,7 +15,7 @@ CHECKS={
    text="Exploration: every (position, non-opening token class, insert/replace/delete) edit of 16 victim bodies chosen to hit each recovery loop of the parser, in front of 8 different following definitions; edit pairs; generated files with up to 3 edits. The oracle compares the untouched definitions (kind, text, position) with the undamaged parse, forbids top-level nodes straddling the victim and errors outside it.",
    note="'At least one error is reported' is not checked; body = strictly between the outermost braces; braces are never edited.", ref="DESIGN.md §5 C03"),
  "C04": dict(tech="exhaustive operator triples/pairs x operand forms + proptest-generated modules from a reference grammar with random trivia; reference-model oracle (precedence climbing, structural shape comparison)", engine="inproc",
-   text="Exploration: all 23^3 binary-operator triples x 4 operand forms and all pairs x 4^3 forms are printed flat and must parse to the tree that precedence climbing over Gleam's documented table gives; 150k/3M generated modules covering every item/statement/expression/pattern/type form must parse error-free into exactly the generator's shape.",
+   text="Exploration: all 23^3 binary-operator triples x 4 operand forms and all pairs x 4^3 forms are printed flat and must parse to the tree that precedence climbing over Gleam's documented table gives; 400k/3M generated modules covering every item/statement/expression/pattern/type form must parse error-free into exactly the generator's shape.",
    note="The reference grammar is mine (written from the Gleam reference); constructs behind known findings (chained tuple index) are excluded and counted; the extractor is structural and does not vouch for typed accessors on HOLE.", ref="DESIGN.md §5 C04"),
  "C13": dict(tech="exhaustive single edits over small documents + proptest-generated edit histories; reference-model oracle (LSP client document)", engine="inproc",
    text="Exploration: all documents <=4/5 symbols over {a, LF, CRLF, 2/3/4-byte chars} x all valid position pairs x all replacements <=2 symbols through the hooked Vfs/convert calls the server makes per change, plus generated histories of up to 20 changes with full replacements mixed in, compared with an independent client-document model after every change.",
@@ -24,7 +24,7 @@ CHECKS={
    text="Exploration: all documents <=6/8 symbols over {a, LF, 2/3/4-byte chars}: offset->position->offset identity, strict monotonicity, agreement with an independent UTF-16 client model at every boundary, and client-side slice equality for every ordered boundary pair; long random documents with sampled pairs.",
    note="Conversions reached through the `verif` hook wrappers around the crate-private functions every handler uses.", ref="DESIGN.md §5 C14"),
  "C05": dict(tech="proptest-generated multi-module/multi-package workspaces from a scope-aware generator; reference-model oracle (Gleam scoping implemented in the generator) per identifier occurrence", engine="sandbox",
-   text="Exploration: 12k/300k generated workspaces with names from tiny pools (shadowing is the norm); every emitted identifier token carries the declaration Gleam binds it to; go-to-definition must land exactly there (focus contains the name token, inside the declaration node, right file), nowhere else, and nowhere for unbound names.",
+   text="Exploration: 60k/300k generated workspaces with names from tiny pools (shadowing is the norm; some locals are called like an import accessor; clauses with binder-free alternative patterns); every emitted identifier token carries the declaration Gleam binds it to; go-to-definition must land exactly there (focus contains the name token, inside the declaration node, right file), nowhere else, and nowhere for unbound names.",
    note="The scoping model is mine (written from Gleam's rules); constructs glas does not lower are 'weak' occurrences (nothing accepted, wrong declaration not); known finding C05-F1 (guards) excluded by construction and replayed.", ref="DESIGN.md §5 C05"),
  "C06": dict(tech="proptest-generated, corpus and damaged workspaces; metamorphic inverse-view oracle between references/highlight and go-to-definition over all identifier tokens", engine="sandbox",
    text="Exploration: for every declaration reached by go-to-definition from any identifier token, references from EVERY occurrence spelled with its name must equal exactly the set of such occurrences plus the name token, without duplicates, and highlight must equal the in-file part.",
@@ -36,10 +36,10 @@ CHECKS={
    text="Exploration: every identifier occurrence of every generated workspace (local root, external build/packages dependency, local path dependency) is renamed to each of 48 candidate names; refusals must match an independent model (name class per symbol kind, module, alias spelling, external package), prepare_rename must agree with rename, no accepted rename may edit a dependency.",
    note="Symbol kind/locality/alias are known from the generator; the name-class model does not use the glas lexer.", ref="DESIGN.md §5 C08"),
  "C09": dict(tech="proptest-generated two-module programs from a type-directed generator (every expression built against a chosen target type); reference-model oracle: the type known by construction vs the type shown on hover, up to alpha-equivalence", engine="inproc",
-   text="Exploration: 3k/100k generated programs (about 65k/2M binders): literals, operators incl. && || != and prefix ! -, comparisons, tuples and indexes, lists and spreads, Result, records with labels in any order, field access, blocks, case on Bool/Result/lists with several subjects, generic functions and constructors, labelled and cross-module calls, lambdas, captures, pipelines, let/lambda annotations incl. aliases of this and of another module, `todo` initialisers, constructor patterns with every mix of positional and labelled sub-patterns, functions in stream-chosen order with a mutually recursive group. Hover on every binder must show the type the generator built the program for.",
+   text="Exploration: 30k/100k generated programs (about 700k/2.3M binders): literals, operators incl. && || != and prefix ! -, comparisons, tuples and indexes, lists and spreads, Result, records with labels in any order, field access, blocks, case on Bool/Result/lists with several subjects, generic functions and constructors, labelled and cross-module calls, lambdas, captures, pipelines (also into a call with a function literal), function literals passed to generic higher-order functions (positional, labelled, labelled in another order) with bodies projecting the parameter, `use`, case on custom types with alternative patterns / `..` / nested patterns, record update, `let assert`, let/lambda annotations incl. aliases of this and of another module, `todo` initialisers, constructor patterns with every mix of positional and labelled sub-patterns, functions in stream-chosen order with a mutually recursive group. Hover on every binder must show the type the generator built the program for.",
    note="Typing rules are Gleam's documented ones as implemented in the generator; no let-polymorphism assumed; known finding C09-F1 (module constants have no type) is excluded by construction (VERIF_C09_PROBE=const generates them) and its witness replayed.", ref="DESIGN.md §5 C09"),
  "C18": dict(tech="proptest-generated workspaces with expression holes from the scope-aware generator; reference-model oracle (names in scope known by construction) + metamorphic accept-and-reanalyse oracle", engine="sandbox",
-   text="Exploration: 2.5k/60k generated workspaces with placeholder holes at the end of blocks (plain and keyword-spelled), `accessor.` holes and `value.` holes: offered param/function/variant/module items must equal the names visible at the hole; every replacement range is exactly the placeholder; each accepted item, inserted into a FRESH workspace, must resolve by go-to-definition to the declaration that name denotes at the hole.",
+   text="Exploration: 12k/60k generated workspaces with placeholder holes at the end of blocks (plain and keyword-spelled), `accessor.` holes and `value.` holes: offered param/function/variant/module items must equal the names visible at the hole; every replacement range is exactly the placeholder; each accepted item, inserted into a FRESH workspace, must resolve by go-to-definition to the declaration that name denotes at the hole.",
    note="Prelude constructors are optional members; keywords/snippets ignored; the visible-name model is the generator's (Gleam scoping).", ref="DESIGN.md §5 C18"),
  "C10": dict(tech="proptest-generated broken workspaces x sweep of every query kind at every token-boundary offset; crash oracle in sandboxed worker processes", engine="sandbox",
    text="Exploration: 3k/80k workspaces broken by damage, truncation, emptied files, self/unresolved/duplicate/cyclic imports, arity-mismatched clauses, alias cycles, non-ASCII identifiers, garbage files; ~500 query calls each. A panic is caught and attributed; a worker killed by a signal or stalled is confirmed alone.",
@@ -54,16 +54,16 @@ CHECKS={
    text="Exploration: 1k/20k seeded schedules over workspaces of 13-51 files whose texts embed the version; readers loop over ~50 queries on their snapshot and may stop only on Cancelled or after apply_change returned; every result must be Cancelled or exactly the precomputed answer for the snapshot's own (version, package graph) state; content changes and graph-only changes are interleaved; apply_change must return (45 s watchdog, confirmed by replay); a snapshot taken afterwards answers for the new state.",
    note="The OS owns the scheduler: rare interleavings stay unexplored; the causal structure of the oracle makes swallowed cancellation, retry-on-cancel and leaked snapshots fail deterministically.", ref="DESIGN.md §5 C12"),
  "C15": dict(tech="proptest-generated LSP message sequences (valid and invalid parameters by rule) against the real binary; invariant over the history (alive, one response per id) + reference model of the document store with allowed-outcome sets", engine="lsp",
-   text="Exploration: 3k/60k sequences of 5-40 messages (opens, changes with out-of-range / reversed / mid-surrogate / huge positions and further changes after an invalid one, closes, saves, watched-file events, non-file URIs, all 11 request kinds) against the real `glas --stdio`; the process must stay alive, answer every id exactly once, end with status 0, and every document's text (via glas/syntaxTree) must be one the model allows - never an edit applied elsewhere.",
+   text="Exploration: 3k/60k sequences of 5-40 messages (opens, changes with out-of-range / reversed / mid-surrogate / huge positions and further changes after an invalid one, closes, saves, watched-file events, non-file URIs, all 11 request kinds, bursts of 2*cores+1 identical requests written at once) against the real `glas --stdio`; the process must stay alive, answer every id exactly once, end with status 0, and every document's text (via glas/syntaxTree) must be one the model allows - never an edit applied elsewhere.",
    note="A request outside the document may be answered with an error; once a document's state is ambiguous and changes go on, it is untracked until reopened (sound, weaker).", ref="DESIGN.md §5 C15"),
  "C16": dict(tech="proptest-generated races (request batches vs edit bursts, stream-chosen chunking and pauses) against the real binary; per-version differential oracle (in-process answers) + convergence and liveness invariants", engine="lsp",
-   text="Exploration: 240/5k races; a writer thread pushes the whole stream without waiting; every request must be answered exactly once within 30 s with the in-process answer of exactly the version that was current when it was written (or a cancellation/error); afterwards the server's text and its last published diagnostics must be those of the client's final text.",
+   text="Exploration: 240/5k races (request batches of 1-12, now and then 2*cores+1..+16 at once, against bursts of 1-8 edits); a writer thread pushes the whole stream without waiting; every request must be answered exactly once within 30 s with the in-process answer of exactly the version that was current when it was written (or a cancellation/error); afterwards the server's text and its last published diagnostics must be those of the client's final text.",
    note="Timing is owned by the OS; line-shifting edits are excluded by construction because of known finding C16-F1 (live document store vs snapshot), its witness is replayed.", ref="DESIGN.md §5 C16"),
  "C17": dict(tech="proptest-generated project trees on disk (registry, path, indirect and diamond dependencies, nested and test modules, free-standing file, opening orders) against the real binary; reference-model oracle (the scope-aware generator's module/package resolution)", engine="lsp",
-   text="Exploration: 400/10k trees; up to 40 definition requests per tree on uses whose declaration the generator knows must land in the declaring file at the declaration (URIs normalised); prepareRename must refuse build/packages symbols and accept local ones; an indirect dependency's module must not resolve; the free-standing file must get answers.",
+   text="Exploration: 1.5k/10k trees; up to 40 definition requests per tree on uses whose declaration the generator knows must land in the declaring file at the declaration (URIs normalised); prepareRename must refuse build/packages symbols and accept local ones; an indirect dependency's module must not resolve; the free-standing file must get answers.",
    note="No `gleam` executable on PATH; documents are opened before they are queried (disk text == opened text).", ref="DESIGN.md §5 C17"),
  "C19": dict(tech="exhaustive enumeration (small documents x highlight lists x tags) through the hooked encoder + proptest-generated programs through ide highlighting and through the real server; round-trip oracle (independent LSP decoder + UTF-16 client model) and reference highlight set", engine="inproc",
-   text="Exploration: ~700k/10M encoded lists enumerated exhaustively; real highlight output (whole file and sub-ranges) of 1.5k/40k generated/corpus workspaces; range answers must contain everything inside the range and nothing outside the whole-file answer; for generated workspaces the tagged set must be exactly the function uses and constructor uses/definitions (+ optional members); 160/4k programs through semanticTokens/full and /range of the real server.",
+   text="Exploration: ~700k/10M encoded lists enumerated exhaustively; real highlight output (whole file and sub-ranges) of 5k/40k generated/corpus workspaces; range answers must contain everything inside the range and nothing outside the whole-file answer; for generated workspaces the tagged set must be exactly the function uses and constructor uses/definitions (+ optional members); 160/4k programs through semanticTokens/full and /range of the real server.",
    note="Function-typed locals are optional members of the highlight set (the generator does not track types).", ref="DESIGN.md §5 C19"),
 }
 
